@@ -897,6 +897,24 @@ func buildCases(c *fw.Ctx) []*Case {
 			})
 			if b.forms != nil {
 				formPairFaults(b, singles, emit)
+				// a delimiter duplicated a million times: a page dictionary entry and a content
+				// stream holding arrays nested that deep (cross-reference data repaired)
+				for _, n := range []int{300000, 2000000} {
+					if at := bytes.Index(b.data, []byte("/MediaBox")); at > 0 {
+						ed := edit{start: at, end: at, repl: append(append([]byte("/PieceInfo "), bytes.Repeat([]byte("["), n)...), ' '), desc: fmt.Sprintf("deep-nesting page entry [ x %d", n)}
+						if fx := fixupEdits(b, []edit{ed}); fx != nil {
+							emit(ed.desc+" [xref offsets repaired]", fx)
+						}
+					}
+					for _, f := range b.fields {
+						if f.Kind == "streamdata" && f.Obj == b.forms["fm1"] {
+							ed := edit{start: f.Start, end: f.Start, repl: bytes.Repeat([]byte("["), n), desc: fmt.Sprintf("deep-nesting form content [ x %d", n)}
+							if fx := fixupEdits(b, []edit{ed}); fx != nil {
+								emit(ed.desc+" [xref offsets repaired]", fx)
+							}
+						}
+					}
+				}
 			}
 			// double applications of the catalogue: half of the pairs combine a number
 			// that lies about a size or count with a structural break (retargeted
@@ -971,6 +989,15 @@ func buildCases(c *fw.Ctx) []*Case {
 				st, en := loc[0], loc[1]
 				for _, h := range hostileInts {
 					emit(fmt.Sprintf("int %s@%d=%s", b.data[st:en], st, h), splice(b.data, st, en, []byte(h)))
+				}
+			}
+			// unbalanced delimiters, repeated: containers nested far deeper than any real
+			// file (the stack / the memory per level is the attacker's to choose)
+			if b.id == "rawobj0" || b.id == "rawcs0" {
+				for _, unit := range []string{"[", "<</K ", "[<</K ", "[ "} {
+					for _, n := range []int{100000, 1000000, 8000000} {
+						emit(fmt.Sprintf("deep-nesting %q x %d", unit, n), append(bytes.Repeat([]byte(unit), n), b.data...))
+					}
 				}
 			}
 			// token-ish single faults for raw parser inputs: truncate at every byte, drop every byte
